@@ -265,6 +265,18 @@ def gen_points(rng, D, n):
   return out
 
 
+def face_point(rng, D):
+  """The interior point D['q'] moved onto a face of the box (or kept when that leaves the constrained region): a feasible
+  point at which one of the half-spaces is active."""
+  for _ in range(6):
+    p = list(D["q"])
+    j = rng.randrange(len(p))
+    p[j] = float(D["bounds"][j][rng.randrange(2)])
+    if all(sum(wi * xi for wi, xi in zip(w, p)) >= r for w, r in D["cons"]):
+      return p
+  return list(D["q"])
+
+
 def gen_fixed(rng, D):
   if not D["free"] or rng.random() < 0.6:
     return []
@@ -339,7 +351,8 @@ def gen_case(rng):
       D = gen_domain(rng, constrained=True, maxdim=3)
     num = rng.randint(2, 6)
     total = 35 * (len(D["bounds"]) + 1) + num
-    return kind, dict(bounds=D["bounds"], cons=D["cons"], num=num, x0=rng.choice(["q", "cheby"]), q=D["q"],
+    x0 = rng.choice(["q", "cheby", "face"])
+    return kind, dict(bounds=D["bounds"], cons=D["cons"], num=num, x0="q" if x0 != "cheby" else "cheby", q=D["q"] if x0 != "face" else face_point(rng, D),
                       us=[rng.randint(1, 63) / 64.0 for _ in range(total)], seed=rng.randrange(10**6))
   if kind == "grid":
     D = gen_domain(rng, constrained=False, maxdim=3)
@@ -747,7 +760,8 @@ def gen_search(rng):
     dim = len(D["bounds"])
     inp.update(bounds=D["bounds"][:3], cons=[], ppd=rng.choice([rng.randint(0, 4), [rng.randint(1, 4) for _ in range(min(3, dim))]]))
   elif kind == "direct":
-    inp.update(which=rng.choice(["uniform", "sobol", "halton", "lhs", "rejection", "padding", "hitandrun"]), n=rng.randint(1, 12), q=D["q"],
+    inp.update(which=rng.choice(["uniform", "sobol", "halton", "lhs", "rejection", "padding", "hitandrun"]), n=rng.randint(1, 12),
+               q=D["q"] if rng.random() < 0.6 else face_point(rng, D),   # the chain may start on a face of the polytope
                skip=rng.randint(0, 50), qseed=rng.randrange(10**6))
   elif kind == "cheby":
     inp.update(q=D["q"])
@@ -817,7 +831,11 @@ def _oracle(kind, inp, dm, smp, geo, bounds, cons):
     if kind == "cheby_bad":
       if feas:
         return _fail(kind, inp, "empty or zero-width set reported feasible", dict(radius=float(radius)), "feasible = False")
-      return None
+      try:   # ... and the domain that is handed such a constraint set refuses it (it does not go on with a "centre" on a face)
+        make_domain(bounds, cons)
+      except AssertionError:
+        return None
+      return _fail(kind, inp, "a domain was built on an empty or zero-width constraint set", None, "AssertionError from set_constraint_list")
     if not feas:
       return _fail(kind, inp, "feasible set reported infeasible", dict(radius=float(radius)), "feasible = True")
     A, b = H[:, :-1], -H[:, -1]
